@@ -1,5 +1,7 @@
 SPECIFICATION Spec
 CONSTANT Which = "C18"
+CONSTANT SmallLen = 0
+CONSTANT AsBuilt = {}
 CONSTANT MaxLen = 3
 INVARIANTS StaysOnOrigin OnlyOwnHttpsHosts
 CHECK_DEADLOCK FALSE
